@@ -53,7 +53,7 @@ package buffer
 //@ func newCASValidatingReader
 //@   requires r != nil && source.dataIntegrityCallback != nil
 //@   exitghost vrBase(result) := srcCount(r)
-//@   ensures result != nil && tinv(result)
+//@   ensures result != nil && fresh(result) && tinv(result)
 
 //@ func (*casValidatingReader).compareChecksum
 //@   requires vrWF(r)
@@ -185,3 +185,22 @@ package buffer
 //@   ensures [last-chunk-only-after-validation] old(r.err) == nil && result1 == nil && hCount(r.hasher) == dgSize(r.digest.value) ==> r.err == io.EOF && vcComplete(r)
 //@   ensures [positive-verdict-iff-complete] old(r.err) == nil ==> (r.err == io.EOF ==> posV == old(posV) + 1) && (r.err != io.EOF ==> posV == old(posV))
 //@   ensures [data-withheld-on-error] result1 != nil ==> len(result0) == 0
+
+// ---- casReaderBuffer: whole-object conversions read the source only through
+// the validating reader, and report success only after that reader has been
+// consulted (also for empty objects, where io.ReadFull alone would not call it).
+//@ func (*casReaderBuffer).toValidatedReader
+//@   requires b.r != nil && b.source.dataIntegrityCallback != nil
+//@   modifies vrBase, rdCalls
+//@   exitghost rdCalls(result) := 0
+//@   ensures result != nil && fresh(result) && rdCalls(result) == 0
+//@   ensures rdCalls(b.r) == old(rdCalls(b.r))
+//@ func (*casReaderBuffer).ToByteSlice
+//@   requires b.r != nil && b.source.dataIntegrityCallback != nil
+//@   ensures [source-read-only-through-the-validator] rdCalls(b.r) == old(rdCalls(b.r))
+//@   ensures [validator-consulted-before-success] result1 == nil ==> rdCalls(r) > 0
+//@ func (*casReaderBuffer).IntoWriter
+//@   requires b.r != nil && b.source.dataIntegrityCallback != nil
+//@   requires [passed-on] tinv(w) && !typeis(w, "*bytes.Buffer")
+//@   ensures [source-read-only-through-the-validator] rdCalls(b.r) == old(rdCalls(b.r))
+//@   ensures [validator-consulted-before-success] result == nil ==> rdCalls(r) > 0
